@@ -327,6 +327,9 @@ func (g *gen) tree(typ string, d int) (*Tree, int64) {
 				}
 			case 14:
 				if g.c.Custom {
+					if r.Intn(5) == 0 {
+						return op([]string{"zt", "zf"}[r.Intn(2)]), 1 // zero-operand operator deciding an and/or
+					}
 					if r.Intn(3) == 0 {
 						return op(g.pick("f", "p"), sub("b"), sub("b")), 1
 					}
